@@ -285,6 +285,33 @@ def run(ctx):
                 ctx.bad('C17.4-consuming-lookup', 'router', 'the reply is not sent on the sender removed from the map', ctx.where(Br, rrem[0][0]),
                         key='TABLE:%s:send-not-on-removed' % ROUTE)
 
+    # (c) the whole allocator discipline (lock, one store per path, wrap-around serial, creation): rules of C16 re-run
+    ctx.rule('C17.2-allocator-discipline', 'the reply pid of a call is unique among outstanding calls only if PidAllocator::allocate never hands out a pid twice, also under concurrent callers: rules of C16 re-run here', floor=20)
+    from ..order import SubCtx as _Sub
+    from . import c16 as _c16
+    _c16.run(_Sub(ctx, 'C17.2-allocator-discipline', 'c16'))
+    # (d) who touches the table of outstanding calls
+    ctx.rule('C17.4-table-accessors', 'the table of outstanding calls is touched only by the call itself (insert, remove of its own key) and by the router (remove of the addressed key): '
+             'no other function iterates, drains, clears or completes its entries (they do not record which peer they wait for)', floor=2)
+    n_acc = 0
+    for B2 in P.all('edp_node'):
+        base2 = B2.path.split('::{')[0]
+        for bb, t in B2.calls():
+            if not t['args'] or not any('dashmap::' in n or 'DashMap' in n for n in callee_names(t)):
+                continue
+            o2 = B2.origin(t['args'][0])
+            if not ('pending_rpcs' in proj_names(o2) or 'upvar:pending_rpcs' in proj_names(o2) or _local_named(B2, o2, 'pending_rpcs')):
+                continue
+            m = callee_names(t)[0].rsplit('::', 1)[1]
+            n_acc += 1
+            inst = '%s:%s' % (base2.rsplit('::', 1)[1], m)
+            if (base2 == RPC.split('::{')[0] and m in ('insert', 'remove')) or (base2 == ROUTE.split('::{')[0] and m in ('remove',)) or m in ('clone', 'len', 'is_empty', 'new', 'contains_key'):
+                ctx.ok('C17.4-table-accessors', inst + '#%d' % n_acc, 'expected accessor', ctx.where(B2, bb))
+            else:
+                ctx.bad('C17.4-table-accessors', inst, '%s performs %s on the table of outstanding calls: entries of calls it knows nothing about (other peers, other callers) are completed, removed or exposed'
+                        % (base2.rsplit('::', 1)[1], m), ctx.where(B2, bb), key='WHO:%s:pending_rpcs.%s' % (base2, m))
+    ctx.anchor(n_acc >= 3, 'accesses to pending_rpcs')
+
 
 def exit_desc(B, bb):
     """line-number-free description of an exit: what error/value it returns"""
